@@ -23,8 +23,7 @@ CFGS = {
 }
 
 
-class Livelock(BaseException):
-    """the driver loop keeps calling next_message() without ever finishing"""
+Livelock = sc.Livelock
 
 
 # ------------------------------------------------------------------ reply grammar (spec)
@@ -140,8 +139,11 @@ def drive(coro):
 
 
 def impl_handshake(mods, cfg, stream, segments):
-    client = sc.make_client(mods, CFGS[cfg])
     loop = FakeLoop(stream, segments)
+    try:
+        client = sc.make_client(mods, CFGS[cfg])
+    except Exception as e:      # observed: a valid configuration was refused
+        return 'constructor-' + sc.exc_name(e), loop
     proxy = mods.socks.SOCKSProxy(mods.util.NetAddress('localhost', 1080), type(client), None)
     try:
         r = drive(proxy._handshake(Watch(client, 4 * len(stream) + 40), object(), loop))
@@ -186,7 +188,10 @@ def oracle_hs(cfg, stream, outcome, loop):
 
 
 def impl_object(mods, cfg, chunks):
-    client = sc.make_client(mods, CFGS[cfg])
+    try:
+        client = sc.make_client(mods, CFGS[cfg])
+    except Exception as e:      # observed
+        return ['E:constructor-' + sc.exc_name(e)], []
     out, raw = sc.drive_object(mods, client, chunks, fuel=len(chunks) + 8)
     return out, raw
 
@@ -271,8 +276,11 @@ def impl_detect(mods, proto, auth, attempts):
     saved = socks.asyncio, socks.socket
     socks.asyncio, socks.socket = FakeAsyncio(loop), FakeSocketModule
     try:
-        r = drive(proxy._detect_proxy())
+        with sc.watchdog(5.0):
+            r = drive(proxy._detect_proxy())
         return 'True' if r is True else 'False' if r is False else repr(r)
+    except Livelock:
+        return 'Livelock'
     except Exception as e:      # observed
         return 'E:' + sc.exc_name(e)
     finally:
@@ -284,6 +292,8 @@ DET_CFG = {'4': '4', '4a': '4a', '5': None}
 
 def oracle_detect(proto, auth, attempts, got):
     """verdict = some attempt's handshake succeeds, or the last attempt is refused by a proxy"""
+    if got not in ('True', 'False'):
+        return 'c17:detect-verdict', f'_detect_proxy gave {got} instead of a verdict'
     cfg = '4' if proto in ('4', '4a') else ('5a' if auth is not None else '5n')
     last = None
     for a in attempts:
